@@ -53,6 +53,15 @@ func c09CheckKey(c c09Key, st *stats.Run) error {
 			return pbt.Failf("C09/print-parse", "plugin.EncodeX25519Recipient gives %q (%v), the recipient string is %q", enc, err, recStr)
 		}
 	}
+	// other keys are parsed and printed; the earlier values still print as before
+	other := hx.PRG(uint64(c.Scalar[0])+500, 32)
+	if oid, oerr := age.ParseX25519Identity(refage.Bech32Encode("AGE-SECRET-KEY-", other)); oerr == nil {
+		_ = oid.String() + oid.Recipient().String()
+	}
+	age.ParseX25519Recipient(refage.Bech32Encode("age", refage.X25519Public(other)))
+	if id.String() != idStr || r.String() != recStr || id.Recipient().String() != recStr {
+		return pbt.Failf("C09/parsed-key-changed", "a parsed key prints differently after other keys were parsed and printed: %s / %s", id.String(), r.String())
+	}
 	return nil
 }
 
